@@ -245,6 +245,15 @@ def gen_html(ctx):
             texts.append(''.join(tup) + '>')
     pieces = ['<', '</', 'div', 'a', ' ', '  ', '\t', 'x=y', 'x="y z"', "k='v'", 'b', '/', '>', '=', '"', "'", 'x=^y$', 'c={d}',
               'e=[f', ']', '\\', '\\"', '*3', 'é', '1']
+    for _ in range(3000 if quick else 40000):
+        t = U.gen_tag(rng)
+        r = rng.random()
+        if r < 0.3 and len(t) > 2:      # damage it
+            i = rng.randint(0, len(t) - 2)
+            t = t[:i] + rng.choice(['', '', '=', '"', ' ', '<', '>', 'x']) + t[i + 1:]
+        elif r < 0.4:
+            t = rng.choice(['x', 'a b ', '<p>', '"', '<i ']) + t
+        texts.append(t)
     for _ in range(3000 if quick else 60000):
         if rng.random() < 0.6:
             t = ''.join(rng.choice(pieces) for _ in range(rng.randint(1, 9)))
